@@ -29,7 +29,9 @@ TOL = z3.RealVal('1/1000000000000')     # 1e-12 relative: a 1-ulp excursion of (
 
 _PRE = ('import sys, athlib\nyear = YEAR\nage = AGE\ng = G\nd = {d}\nform = FORM\n'
         'ag = athlib.ag2015 if year == 2015 else athlib.ag2023\n'
-        "code = str(d) if form == 'bare' else '%dK' % (d // 1000)\n"
+        "MULT = dict(bare=1, K=1000, K1=100, M=1609)\n"
+        "def spell(d):\n    return str(d) if form == 'bare' else '%dK' % (d // 1000) if form == 'K' else '%d.%dK' % (d // 1000, (d % 1000) // 100) if form == 'K1' else '%dM' % (d // 1609)\n"
+        "code = spell(d)\n"
         'lo, hi = LO, HI\n'
         'def three(c):\n    return ag.calculate_factor(g, age, c), ag.world_best(g, c)\n')
 SCRIPTS_T = {
@@ -42,7 +44,7 @@ SCRIPTS_T = {
                             "if lo and hi: ok = min(bs, bl) * (1 - 1e-12) <= b <= max(bs, bl) * (1 + 1e-12)\n"
                             "elif hi: ok = 0 < b <= bl * (1 + 1e-12)\nelse: ok = b >= bs * (1 - 1e-12)\n"
                             "print(year, g, repr(code), 'best', b, 'neighbours', lo, bs, hi, bl)\nsys.exit(0 if ok else 1)\n"),
-    'best-increasing': _PRE + ("step = 1 if form == 'bare' else 1000\ncode2 = str(d + step) if form == 'bare' else '%dK' % ((d + step) // 1000)\n"
+    'best-increasing': _PRE + ("step = MULT[form]\ncode2 = spell(d + step)\n"
                                "b1 = ag.world_best(g, code); b2 = ag.world_best(g, code2)\nprint(year, g, repr(code), b1, repr(code2), b2)\nsys.exit(0 if b2 >= b1 * (1 - 1e-12) else 1)\n"),
     'unexpected-exception': 'import sys\nsys.exit(0)\n',
 }
@@ -58,22 +60,40 @@ def scripts(year, g, age, form, lo, hi):
             for k, v in SCRIPTS_T.items()}
 
 
-def code_of(d, form):
+MULT = {'bare': 1, 'K': 1000, 'K1': 100, 'M': 1609}
+
+
+def code_of(v, form):
+    """the spelling of the distance MULT[form] * v: bare metres, whole kilometres N K, tenths of a kilometre N.d K, whole miles N M"""
+    cells = list(SymStr.lift(render_int(v)).cells)
     if form == 'bare':
-        return _mk(SymStr.lift(render_int(d)).cells)
-    return _mk(SymStr.lift(render_int(d // 1000)).cells + ['K'])
+        return _mk(cells)
+    if form == 'K':
+        return _mk(cells + ['K'])
+    if form == 'K1':
+        return _mk(cells[:-1] + ['.'] + cells[-1:] + ['K'])
+    return _mk(cells + ['M'])
+
+
+def vrange(form, dlo, dhi):
+    """values v such that MULT * v and MULT * (v + 1) both lie inside the segment; for the decimal / mile spellings int(1000 * qty) may come
+    out one metre short in doubles, so the start of the segment is kept two metres away.  None when there is no such v"""
+    mult = MULT[form]
+    lo_v = -(-(dlo + (0 if form == 'bare' else 2)) // mult)
+    hi_v = dhi // mult - 1
+    if form == 'K1':
+        lo_v = max(lo_v, 10)
+    return (lo_v, hi_v) if lo_v <= hi_v else None
 
 
 def body_segment(year, g, age, form, dlo, dhi, lo_code, hi_code):
     def body(R):
         eng = E.cur()
         ag = grader(year)
-        if form == 'bare':
-            d = symint('d', dlo, dhi - 1)              # d and d+1 both inside the closed segment, d strictly above its start
-        else:
-            km = symint('km', dlo // 1000, (dhi - 1) // 1000 - 1)
-            eng.add(z3.And(km.term * 1000 >= dlo, (km.term + 1) * 1000 <= dhi))
-            d = km * 1000
+        mult = MULT[form]
+        lo_v, hi_v = vrange(form, dlo, dhi)
+        v = symint('v', lo_v, hi_v)
+        d = v * mult
         ins = {'d': d}
         R.partial = {'inputs': ins}
         fs = ag.calculate_factor(g, age, lo_code) if lo_code else None
@@ -82,9 +102,8 @@ def body_segment(year, g, age, form, dlo, dhi, lo_code, hi_code):
         bl = ag.world_best(g, hi_code) if hi_code else None
         consts = [x for x in (bs, bl) if x is not None]
         eng.div_consts = [realval(float(x)) * (1 - TOL) for x in consts] + [realval(float(x)) * (1 + TOL) for x in consts]
-        code = code_of(d, form)
-        step = 1 if form == 'bare' else 1000
-        code2 = code_of(d + step, form)
+        code = code_of(v, form)
+        code2 = code_of(v + 1, form)
         try:
             eng.r_copy = 1
             f = ag.calculate_factor(g, age, code)
@@ -156,7 +175,7 @@ def run(chk, only=None):
             runs = table[i0:]
             ages = [47] if quick else [23, 47, 66.5, 91]
             for age in ages:
-                for form in ('bare', 'K'):
+                for form in ('bare', 'K', 'K1', 'M'):
                     # below the first row
                     first_m = int(round(runs[0][1] * 1000))
                     if form == 'bare':
@@ -164,17 +183,18 @@ def run(chk, only=None):
                     prev = runs[0]
                     for r in runs[1:]:
                         a, b = int(round(prev[1] * 1000)), int(round(r[1] * 1000))
-                        if b - a >= (3 if form == 'bare' else 2001):
-                            if form == 'bare' or (b - 1) // 1000 - 1 >= (a // 1000 + 1):
-                                jobs.append((year, g, age, form, a + 1 if form == 'bare' else a + 1, b, prev[0], r[0]))
+                        if b - a >= 3 and vrange(form, a + 1, b) is not None:
+                            jobs.append((year, g, age, form, a + 1, b, prev[0], r[0]))
                         if r[1] > prev[1]:
                             prev = r
                     last_m = int(round(runs[-1][1] * 1000))
                     jobs.append((year, g, age, form, last_m + 1, 400000, prev[0], None))
     if quick:
-        # quick tier: the 2023 table, every bare-number segment and every third N K segment
+        # quick tier: the 2023 table, every bare-number segment and every third segment of each other spelling
         kj = [j for j in jobs if j[0] == 2023 and j[3] == 'K']
-        jobs = [j for j in jobs if j[0] == 2023 and j[3] == 'bare'] + kj[::3]
+        k1 = [j for j in jobs if j[0] == 2023 and j[3] == 'K1']
+        mj = [j for j in jobs if j[0] == 2023 and j[3] == 'M']
+        jobs = [j for j in jobs if j[0] == 2023 and j[3] == 'bare'] + kj[::3] + k1[1::3] + mj[2::3]
     inverted = sorted({'%s %s %s-%s' % (j[0], j[1], j[6], j[7]) for j in jobs if j[6] and j[7] and not speeds_ordered(grader(j[0]), j[1], j[6], j[7])})
     chk.extra['segments_with_inverted_speeds_best_increasing_not_asserted'] = inverted
     if only:
@@ -184,9 +204,9 @@ def run(chk, only=None):
     chk.stubs = ['doubles as reals with monotone rounding (error bound 2**-53); distance / speed as an uninterpreted quotient with cross-multiplied comparison facts for the bracketing bests',
                  'event code = decimal digit cells of the symbolic distance (forks on the number of digits); segment = two neighbouring running rows with different distances, read from the live table',
                  'tolerance 1e-12 relative on every betweenness / order clause']
-    chk.bounds = {'distance': 'every whole metre 20 m .. 400 km (bare numbers); every whole kilometre inside a segment (N K codes)', 'ages': [47] if quick else [23, 47, 66.5, 91],
+    chk.bounds = {'distance': 'every whole metre 20 m .. 400 km (bare numbers); every whole kilometre (N K), every tenth of a kilometre from 1 km (N.d K) and every whole mile (N M) inside a segment', 'ages': [47] if quick else [23, 47, 66.5, 91],
                   'tables': [2023] if quick else [2015, 2023], 'segments': len(jobs)}
-    chk.outside = ['N.ddK and N[.dd]M road spellings (decimal kilometres / miles)', 'ages other than the listed ones (the age axis is C14)',
+    chk.outside = ['N.ddK with two decimals and N.dM / N.ddM (decimal miles) road spellings', 'ages other than the listed ones (the age axis is C14)',
                    'strict increase of the best time (only "not decreasing from d to d+1" is proved)']
     print('C15: %d segment jobs' % len(jobs), flush=True)
     pool.run_jobs(chk, worker, jobs, chunksize=1, progress=50)
